@@ -30,6 +30,9 @@ RULE = ("random screens (1-14 rows quick / 1-30 thorough, arity 1-3, small name/
         "rows at the selection, derived scalars/sets (size, n_plates, unique_*, n_unique_*, treatment_arity, is_observed, *_space_size, plate_id, plate_name) with "
         "their value recomputed from the parent's selected rows, mappings/control name with the parent's objects; 35% of the screens have replicated "
         "monotherapy rows spread over plates (effects array non-None), with combination-only / monotherapy-only / one-replicate-missing selections. "
+        "40% of the parents with >= 2 plates went through 1-3 in-place Plate.merge calls (any pair of equally observed plates, merged plates again; the stored "
+        "plate mapping is then stale): views, attributes, derived properties and to_screen (rows incl. the plate name per row; plate ids of the materialised "
+        "screen decode to those names) are checked against the parent's rows AFTER the merges, which is also what the model is given. "
         "Non-trivial: tree with >= 3 operations incl. a nested subset or unique filter, evaluated without error on a screen of >= 3 rows.")
 
 ATTRS = ["plate_ids", "sample_ids", "treatment_ids", "sample_names", "treatment_names", "treatment_doses", "observations", "observation_mask"]
@@ -201,12 +204,48 @@ def has_nested(tree):
 
 # ---------------------------------------------------------------- evaluation on the real code + oracle
 
+def build_parent(raw):
+    """the parent screen of a case: Screen(...) from the raw rows, then the recorded in-place Plate.merge calls
+    (plate ids at the time of each call); merge rewrites screen.plate_names and re-encodes the plate ids but leaves the
+    stored plate mapping stale"""
+    s = S.build(raw)
+    for a, b in raw.get("merges") or []:
+        s.get_plate(int(a)).merge(s.get_plate(int(b)))
+    return s
+
+
+def gen_merges(rng, raw):
+    """1-3 merges of two plates with the same observed status (any pair: into the first / a middle / the last name, merged plates again)"""
+    s = S.build(raw)
+    merges = []
+    for _ in range(rng.randint(1, 3)):
+        ids = [int(x) for x in s.unique_plate_ids]
+        status = {q: bool(s.observation_mask[s.plate_ids == q][0]) for q in ids}
+        pairs = [(a, b) for a in ids for b in ids if a != b and status[a] == status[b]]
+        if not pairs:
+            break
+        a, b = rng.choice(pairs)
+        s.get_plate(a).merge(s.get_plate(b))
+        merges.append([a, b])
+    return merges
+
+
+def effective_raw(raw):
+    """the rows of the parent as they are after the merges (what the model is given)"""
+    if not raw.get("merges"):
+        return raw
+    s = build_parent(raw)
+    r = dict(raw, pnames=[str(x) for x in s.plate_names])
+    r.pop("merges")
+    return r
+
+
 class Eval:
     """evaluates a tree on the real objects; after every operation re-reads every view created so far"""
 
     def __init__(self, raw, res=None, case=None, lseed=0):
         self.raw = raw
-        self.screen = S.build(raw)
+        self.screen = build_parent(raw)
         self.foreign = None
         self.res = res
         self.case = case
@@ -221,6 +260,11 @@ class Eval:
         self.parent["observations"] = [S.bits(x) for x in s.observations]
         self.parent["plate_names"] = [str(x) for x in s.plate_names]
         self.n = n
+        if raw.get("merges"):
+            order = sorted(set(self.parent["plate_names"]))
+            if self.parent["plate_ids"] != [order.index(x) for x in self.parent["plate_names"]]:
+                self.fail("after Plate.merge the parent's plate ids are not the fresh encoding of its (rewritten) plate names",
+                          self.parent["plate_ids"], [order.index(x) for x in self.parent["plate_names"]], signature="C14:merged-parent:plate-ids")
         self.pvals = {name: read_prop(s, name) for name in prop_names(s) if name != "plates"}
         self.obs_f = [float(x) for x in s.observations]
         # independent check of the parent's own single-treatment effects (tolerance: a mean is computed)
@@ -608,6 +652,11 @@ def check_to_screen(E, v, res, case):
             return t
     if t.control_treatment_name != E.screen.control_treatment_name:
         res.fail("to_screen() changed the control name", case, t.control_treatment_name, E.screen.control_treatment_name)
+    dec = {int(i): str(nm) for nm, i in zip(*t.plate_mapping)}
+    if [dec.get(int(i)) for i in t.plate_ids] != want["plate_names"] or len(dec) != len(set(want["plate_names"])):
+        res.fail("plate ids of the materialised screen do not decode to the selected rows' plate names", case,
+                 {"plate_ids": [int(i) for i in t.plate_ids], "plate_mapping": S.show_smap(t.plate_mapping)}, want["plate_names"],
+                 signature="C14:to_screen:plate-ids")
     return t
 
 
@@ -799,7 +848,10 @@ def run(ctx, res):
 
     for t in range(n_trees):
         raw = gen_screen(rng, n_max)
-        toks = S.raw_to_tokens(raw)
+        if len(set(raw["pnames"])) >= 2 and rng.random() < 0.4:
+            raw["merges"] = gen_merges(rng, raw)
+        toks = S.raw_to_tokens(effective_raw(raw))         # the model is given the parent's rows as they are after the merges
+        res.count("parent.merges=%d" % len(raw.get("merges") or []))
 
         def sizes_of(tree, raw=raw):
             E, v, err = run_tree(raw, tree, None, None)
